@@ -322,6 +322,9 @@ void dom_p17(void) {
         sprintf(line, "P 64 4 423f:1:%s 423f0a", script);
         emit_case(line);
     }
+    /* announced lengths around 2^16 and beyond followed by a first data chunk: the chunk must be accepted, the block stays open */
+    { static const unsigned big[] = {65535, 65536, 65537, 65540, 100000, 131072, 16777216, 99999999}; int i;
+      for (i = 0; i < 8; i++) { sprintf(line, "P 64 4 423f:1:rKH,%u/rKD,6162636465/rKD,-/rKD,66 423f0a", big[i]); emit_case(line); } }
     /* header-only calls for every power of ten up to 10^8 */
     { unsigned p = 1; int i; for (i = 0; i <= 8; i++) { sprintf(line, "P 64 4 423f:1:rKH,%u 423f0a", p); emit_case(line); sprintf(line, "P 64 4 423f:1:rKH,%u 423f0a", p - 1 + (i == 0)); emit_case(line); p *= 10; } }
 }
